@@ -10,7 +10,7 @@
 mod keylife;
 
 use hx_common::{Case, Rng, run_harness};
-use keylife::{CAPS, DRIVERS, Weights, case, epilogue, exec_case, nontrivial, random_program};
+use keylife::{CAPS, DRIVERS, Weights, case, epilogue, exec_isolated, random_program, worker_main};
 
 const ROUTES: [&str; 3] = ["cancel", "token", "ccancel"];
 
@@ -137,6 +137,28 @@ fn order_family(out: &mut Vec<Case>, rng: &mut Rng, ns: &[usize], two_victims: b
     }
 }
 
+/// runtime level: real `Runtime` + `CancelToken` + `with_cancel` on both drivers; ops on never-ready sockets started before
+/// and after the token fires (fired from inside between two ops, from outside while the future sleeps, after a cancelled
+/// op), timeouts, data already waiting, a neighbour task that is not registered with the token
+fn rt_family(out: &mut Vec<Case>, thorough: bool) {
+    let mut progs: Vec<&str> = vec![
+        "r", "r,r", "F,r", "F,k", "F,r,r", "X,r", "X,k,r", "r,k", "k,F,r", "k,X,r", "d,F,r", "F,d,r", "r,d,k", "s,X,s,r",
+        "d,r,F,k", "k,r,r", "F,F,r", "r,X,r",
+    ];
+    if thorough {
+        progs.extend(["r,r,r,r", "k,k,F,k,k", "X,d,d,r,d", "d,d,F,d,k,r", "s,F,s,r,s,r", "r,F,X,r", "X,X,k", "k,d,X,d,r,k"]);
+    }
+    let caps: &[u32] = if thorough { &[16, 1024] } else { &[1024] };
+    for drv in DRIVERS {
+        for &cap in caps {
+            for (i, p) in progs.iter().enumerate() {
+                let nb = if i % 4 == 3 { 0 } else { 1 };
+                out.push(case(format!("rt/{drv}/{cap}/{}/{nb}", p.replace(',', "")), vec![format!("rt {drv} {cap}"), format!("tok {p} {nb}")]));
+            }
+        }
+    }
+}
+
 /// cancelling twice, cancelling after completion, cancelling through several routes
 fn repeat_family(out: &mut Vec<Case>, rng: &mut Rng) {
     for drv in DRIVERS {
@@ -251,6 +273,7 @@ fn generate(tier: &str, rng: &mut Rng) -> Vec<Case> {
     let mut out = vec![];
     let thorough = tier == "thorough";
     f9_family(&mut out, rng);
+    rt_family(&mut out, thorough);
     repeat_family(&mut out, rng);
     if thorough {
         order_family(&mut out, rng, &[3, 4, 5], true);
@@ -288,9 +311,12 @@ fn generate(tier: &str, rng: &mut Rng) -> Vec<Case> {
 }
 
 fn main() {
+    if std::env::var("KL_WORKER").is_ok() {
+        return worker_main();
+    }
     run_harness(
         generate,
-        |c| exec_case(c, nontrivial),
+        |c| exec_isolated(c),
         "an operation was pending in a driver and the storage status vector took at least 3 distinct values",
     );
 }
